@@ -27,6 +27,16 @@ def position(rng, **kw):
     return l
 
 
+def size(rng, **kw):
+    """a width, height or radius: now and then omitted or zero (either way the element is not rendered, SVG 1.1 9.2-9.4)"""
+    r = rng.random()
+    if r < 0.06:
+        return NOL
+    if r < 0.10:
+        return A(0)
+    return length(rng, 1, allow_none=False, **kw)
+
+
 def length(rng, lo=0, hi=60, allow_none=True, allow_pct=True):
     r = rng.random()
     if allow_none and r < 0.2:
@@ -86,12 +96,16 @@ def gen_doc(rng, ntok):
             continue
         shape = rng.choice(["rect", "rect", "circle", "ellipse", "line", "polyline", "polygon", "path", "use", "use"])
         if shape == "rect":
-            geo = [position(rng), position(rng), length(rng, 1, allow_none=False), length(rng, 1, allow_none=False),
+            geo = [position(rng), position(rng), size(rng), size(rng),
                    rng.choice([NOL, NOL, A(2), A(40), A(0)]), rng.choice([NOL, NOL, A(3), A(50)])]
         elif shape == "circle":
-            geo = [position(rng), position(rng), length(rng, 1, allow_none=False, allow_pct=False)]
+            geo = [position(rng), position(rng), size(rng, allow_pct=False)]
         elif shape == "ellipse":
-            geo = [position(rng), position(rng), length(rng, 1, allow_none=False), length(rng, 1, allow_none=False)]      # (radii may be percentages: rx of the viewport width, ry of its height)
+            rboth = size(rng)          # (one radius given and the other omitted: SVG 1.1 and SVG 2 differ - not generated)
+            geo = [position(rng), position(rng), rboth, size(rng) if rboth != NOL else NOL] if rboth != NOL or True else None
+            if (geo[2] == NOL) != (geo[3] == NOL):
+                geo[3] = geo[2] if geo[2] == NOL else A(4)
+            geo = geo      # (radii may be percentages: rx of the viewport width, ry of its height)
         elif shape == "line":
             geo = [position(rng), position(rng), position(rng), position(rng)]
         elif shape in ("polyline", "polygon"):
